@@ -31,7 +31,8 @@ class Driver:
 
     def __init__(self, isl, schema):
         self.isl = isl
-        self.db_user_schema = schema               # dbview.Database.user_schema_pickle
+        self.db_user_schema = schema               # dbview.Database.user_schema_pickle (unpickled)
+        self.db_user_schema_pickle = pickle.dumps(schema, -1)   # ... and the bytes object itself
         self.modaliases = isl['DEFAULT_ALIASES']   # DatabaseConnectionView._modaliases
         self.config = isl['EMPTY']                 # ._config (session config)
         self.last_comp_state = None                # ._last_comp_state
@@ -47,6 +48,7 @@ class Driver:
         self.in_tx_modaliases = None
         self.in_tx_savepoints = []
         self.in_tx_root_user_schema = None
+        self.in_tx_root_user_schema_pickle = None
         self.in_tx_user_schema = None
         self.tx_error = False
 
@@ -103,6 +105,7 @@ class Driver:
         self.in_tx_config = self.config
         self.in_tx_modaliases = self.modaliases
         self.in_tx_root_user_schema = self.db_user_schema
+        self.in_tx_root_user_schema_pickle = self.db_user_schema_pickle
         self.in_tx_user_schema = self.db_user_schema
 
     # dbview.pyx:1053-1071  _apply_in_tx()
@@ -125,6 +128,7 @@ class Driver:
         self.modaliases = self.in_tx_modaliases
         if user_schema is not None:
             self.db_user_schema = pickle.loads(user_schema)
+            self.db_user_schema_pickle = user_schema
         self.reset_tx_state()
 
     # dbview.pyx:1077-1160  on_success()
@@ -132,6 +136,7 @@ class Driver:
         if not self.in_tx:
             if unit.user_schema is not None:
                 self.db_user_schema = pickle.loads(unit.user_schema)
+                self.db_user_schema_pickle = unit.user_schema
         if unit.modaliases is not None:
             self.set_modaliases(unit.modaliases)
         if unit.tx_commit:
@@ -141,6 +146,7 @@ class Driver:
             self.modaliases = self.in_tx_modaliases
             if unit.user_schema is not None:
                 self.db_user_schema = pickle.loads(unit.user_schema)
+                self.db_user_schema_pickle = unit.user_schema
             self.reset_tx_state()
         elif unit.tx_rollback:
             self.reset_tx_state()
@@ -148,6 +154,11 @@ class Driver:
 
 class _BackendFailure(Exception):
     pass
+
+
+class InfraFailure(Exception):
+    """Pooled mode: the compile request was lost with its worker (or the
+    like).  The client sees an error; nothing was compiled, nothing executed."""
 
 
 class Model:
@@ -237,6 +248,11 @@ class World:
             if self.violations:
                 break
         return self.result()
+
+    obs_key = 7
+
+    def new_request_key(self):
+        return 7        # the direct mode has one request in flight at a time
 
     @staticmethod
     def drive(gen):
@@ -442,7 +458,7 @@ class World:
         isl, dv, t = self.isl, self.dv, self.tape
         C = isl['C']
         E = isl['EMPTY']
-        req = isl['Req'](stmts, modaliases=dv.get_modaliases(), session_config=dv.get_config())
+        req = isl['Req'](stmts, modaliases=dv.get_modaliases(), session_config=dv.get_config(), key=self.obs_key)
         if dv.in_tx:
             # compiler_pool/pool.py compile_in_tx(): the marker is sent iff the
             # worker's recorded last state *is* the blob the server holds; the
@@ -496,7 +512,8 @@ class World:
 
         macc = (not is_script) and self.model_accepts(kind, arg, ql)
         # a script containing transaction control is always rejected
-        isl['observed'].clear()
+        self.obs_key = self.new_request_key()
+        isl['observed'].pop(self.obs_key, None)
         cur_before = m.current()
 
         # ---- compile (dbview.parse) ----
@@ -510,6 +527,9 @@ class World:
             compiled = True
         except HarnessError:
             raise
+        except InfraFailure:
+            self.note_infra_failure(kinds, where)
+            return
         except Exception as e:
             if 'failed to lookup' in str(e):
                 # sync_tx / sync_to_savepoint could not find the position the
@@ -558,9 +578,9 @@ class World:
         unit = ug[0]
         # ---- T1: what did the compiler see? ----
         if kind == 'query' and not is_script:
-            if not isl['observed']:
+            if not isl['observed'].get(self.obs_key):
                 raise HarnessError('query compiled without observation')
-            tag, al, cf = isl['observed'][-1]
+            tag, al, cf = isl['observed'][self.obs_key][-1]
             exp = cur_before
             if (tag, al, cf) != (exp[0][0], exp[1], exp[2]):
                 what = 'schema' if tag != exp[0][0] else 'aliases' if al != exp[1] else 'config'
@@ -636,7 +656,8 @@ class World:
         finally:
             self.m = m
 
-        isl['observed'].clear()
+        self.obs_key = self.new_request_key()
+        isl['observed'].pop(self.obs_key, None)
         try:
             ug = yield from self.compile_message(stmts)
             if dv.tx_error:
@@ -644,6 +665,9 @@ class World:
             compiled = True
         except HarnessError:
             raise
+        except InfraFailure:
+            self.note_infra_failure(kinds, where)
+            return
         except Exception as e:
             if 'failed to lookup' in str(e):
                 self.violate('T5', self.sig(f'sync-lookup-failed:{where}'),
@@ -675,7 +699,7 @@ class World:
             self.violate('T3', 'script-unit-count', f'script [{label}] compiled into {len(ug)} units')
             return
         # T1: every query of the script sees the effect of the statements before it
-        obs = list(isl['observed'])
+        obs = list(isl['observed'].get(self.obs_key, ()))
         qi = 0
         for i, (kind, arg) in enumerate(kinds):
             if kind != 'query':
@@ -738,6 +762,18 @@ class World:
         self.probes[f'cell:script:{where}:ok'] += 1
         m.base, m.cur = m2.base, m2.cur
         self.check_baseline('script', kinds)
+
+    def note_infra_failure(self, kinds, where):
+        # binary.pyx:1128: any error of the message puts an open transaction
+        # into the error state; the backend never saw the statement
+        dv, m = self.dv, self.m
+        if dv.in_tx:
+            dv.tx_error = True
+        if m.in_tx:
+            m.err = True
+        self.hist.append(self.describe(kinds) + '!lost')
+        self.ev('msg', self.describe(kinds), 'lost', where)
+        self.probes[f'cell:any:{where}:lost'] += 1
 
     def describe(self, kinds):
         return ' ; '.join(f'{k} {a}'.strip() for k, a in kinds)
